@@ -49,6 +49,7 @@ import XotModel.Lemmas.AcceptedMain
 import XotModel.Lemmas.AcceptedWitness
 import XotModel.Props.C01
 import XotModel.Lemmas.BytesTotal
+import XotModel.Lemmas.ValidDoc
 
 namespace XotModel.Props
 open XotModel XotModel.Witness
@@ -887,5 +888,119 @@ example : decodeBytes (asciiBytes ['<', '?', 'x', 'm', 'l', ' ', 'e', 'n', 'c', 
     '-', 'r', '\'', '?', '>']) = none ∧
     encodingName (asciiBytes ['<', '?', 'x', 'm', 'l', ' ', 'e', 'n', 'c', 'o', 'd', 'i', 'n', 'g', '=', '\'', 'k', 'o', 'i', '8',
     '-', 'r', '\'', '?', '>']) = some ['K', 'O', 'I', '8', '-', 'R'] := by decide
+
+end XotModel.Props
+
+/-! # ================================================================================================
+    # VALIDATE (branch wt-misc): `Xot::validate_well_formed_document` (access.rs)
+    # ================================================================================================
+
+  `validateWellFormedDocument : Tree → Except XotError Unit` (Model/ValidDoc.lean) is the call as
+  written (NotDocument first, then the loop over `children(node)` in which the FIRST illegal child
+  decides, the element count only afterwards); tied to the crate by the `validdoc` suite (every node
+  of generated documents, fragments, unattached nodes; all top-level child sequences up to length 5).
+
+    C03_validate_iff        `.ok ()` iff the decidable `wellFormedDocument`
+    C03_validate_errors     each error answer characterised (first offender decides)
+    C03_string_validates    what `parse` accepts, from ANY string, passes the call
+    C03_tokens_validate     the same from any token list
+    C03_fragment_need_not_validate   closed witness: `parse_fragment("x")` is accepted and does not
+-/
+
+namespace XotModel.Props
+open XotModel
+
+/-- `validate_well_formed_document(node)` answers `Ok(())` iff the node is a document node whose
+    normal children are exactly one element plus comments / processing instructions, in any order
+    (`wellFormedDocument`, a `Bool`). -/
+theorem C03_validate_iff (t : Tree) :
+    validateWellFormedDocument t = .ok () ↔ wellFormedDocument t = true :=
+  validate_iff t
+
+/-- The specification spelled out. -/
+theorem C03_wellFormedDocument_iff (t : Tree) :
+    wellFormedDocument t = true ↔
+      t.value.isDocument = true ∧
+      (∀ k ∈ t.normalKids, k.value.isElement = true ∨ k.value.isCommentOrPi = true) ∧
+      (t.normalKids.filter (fun k => k.value.isElement)).length = 1 := by
+  simp [wellFormedDocument, and_assoc]
+
+/-- Every error answer: `NotDocument` for a non-document node; otherwise the FIRST child (among
+    `children(node)`) that is not an element / comment / PI decides — `TextAtTopLevel` for a text
+    node, `IllegalAtTopLevel` for a document / attribute / namespace node; only when there is none, the
+    element count: `NoElementAtTopLevel` for 0, `MultipleElementsAtTopLevel` for more than 1. -/
+theorem C03_validate_errors (t : Tree) (e : XotError) :
+    validateWellFormedDocument t = .error e ↔
+      (t.value.isDocument = false ∧ e = .notDocument) ∨
+      (t.value.isDocument = true ∧ ∃ pre k post, t.normalKids = pre ++ k :: post ∧ pre.all topOk = true ∧
+          topOk k = false ∧ e = topOffence k) ∨
+      (t.value.isDocument = true ∧ t.normalKids.all topOk = true ∧ countElements t.normalKids = 0 ∧
+          e = .noElementAtTopLevel) ∨
+      (t.value.isDocument = true ∧ t.normalKids.all topOk = true ∧ countElements t.normalKids > 1 ∧
+          e = .multipleElementsAtTopLevel) :=
+  validate_error_iff t e
+
+/-- Whatever `parse` accepts from ANY token list passes `validate_well_formed_document`. -/
+theorem C03_tokens_validate {len : Nat} {env : Env} {ts : List Token} {lexErr : Option Nat} {p : Parsed}
+    (h : build .document len env ts lexErr = .ok p) : validateWellFormedDocument p.tree = .ok () :=
+  validate_of_sound (C03_sound h).1 (C03_sound_document h)
+
+/-- Whatever `parse` accepts from ANY string passes `validate_well_formed_document`. -/
+theorem C03_string_validates {env : Env} {s : Str} {p : Parsed}
+    (h : parseString .document env s = .ok p) : validateWellFormedDocument p.tree = .ok () :=
+  validate_of_sound (C03_string_sound h).1 (C03_string_sound_document h)
+
+/-- Non-vacuity / closed instance: `<a>x</a>` is accepted and its tree validates. -/
+example : ∃ p, parseString .document Env.fresh ['<', 'a', '>', 'x', '<', '/', 'a', '>'] = .ok p ∧
+    validateWellFormedDocument p.tree = .ok () := by
+  have h := lexDocument_render lexWitness3 (by decide)
+  rw [show renderTokens lexWitness3 = ['<', 'a', '>', 'x', '<', '/', 'a', '>'] from by decide] at h
+  cases hp : parseString .document Env.fresh ['<', 'a', '>', 'x', '<', '/', 'a', '>'] with
+  | ok p => exact ⟨p, rfl, C03_string_validates hp⟩
+  | err e env' =>
+    exfalso
+    have : (parseString .document Env.fresh ['<', 'a', '>', 'x', '<', '/', 'a', '>']).isOk = true := by
+      simp only [parseString, lexMode]
+      rw [h, build_eq_buildE]; decide +kernel
+    rw [hp] at this; cases this
+  | panic => exact absurd hp (C03_string_nopanic _ _ _)
+
+/-- The tokens of the fragment text `x`. -/
+def fragmentTextTokens : List Token := [.text ⟨['x'], 0⟩]
+
+/-- Closed check behind the witness below: the builder accepts the text `x` in fragment mode and the
+    resulting document node is refused by the call with `TextAtTopLevel`. -/
+def fragmentTextCheck : Bool :=
+  match buildE .fragment 1 Env.fresh (placeTokens 0 fragmentTextTokens) none with
+  | .ok p => decide (validateWellFormedDocument p.tree = .error .textAtTopLevel)
+  | _ => false
+
+/-- `parse_fragment` output need NOT pass the call: the fragment text `x` is accepted, and its document
+    node (one text child, no element) is answered `TextAtTopLevel`. -/
+theorem C03_fragment_need_not_validate :
+    ∃ p, parseString .fragment Env.fresh ['x'] = .ok p ∧
+      validateWellFormedDocument p.tree = .error .textAtTopLevel := by
+  have h := lexFragment_render fragmentTextTokens (by decide)
+  rw [show renderTokens fragmentTextTokens = ['x'] from by decide] at h
+  have hc : fragmentTextCheck = true := by decide +kernel
+  unfold fragmentTextCheck at hc
+  simp only [parseString, lexMode]
+  rw [h, build_eq_buildE]
+  show ∃ p, buildE .fragment 1 Env.fresh _ none = .ok p ∧ _
+  cases hb : buildE .fragment 1 Env.fresh (placeTokens 0 fragmentTextTokens) none with
+  | ok p => rw [hb] at hc; exact ⟨p, rfl, by simpa using hc⟩
+  | err e env' => rw [hb] at hc; cases hc
+  | panic => rw [hb] at hc; cases hc
+
+/-- The other two non-`NotDocument` refusals are reachable for fragments as well (closed trees): no
+    element at all; two elements. -/
+example : validateWellFormedDocument (.node .document [.node (.comment ['c']) []]) = .error .noElementAtTopLevel := by
+  decide
+example : validateWellFormedDocument (.node .document [.node (.element 2) [], .node (.element 3) []]) =
+    .error .multipleElementsAtTopLevel := by decide
+/-- A text child decides even when there are two elements before it; an element is `NotDocument`. -/
+example : validateWellFormedDocument (.node .document [.node (.element 2) [], .node (.element 3) [],
+    .node (.text ['x']) []]) = .error .textAtTopLevel := by decide
+example : validateWellFormedDocument (.node (.element 2) []) = .error .notDocument := by decide
 
 end XotModel.Props
